@@ -13,16 +13,15 @@ HINT_OLD = ("Under-used so far: standard-library trait methods with default bodi
         "(`Trait<Assoc = X>`), traits with lifetime parameters, `Self`-returning methods, `#[skip_func]`, `#[vtbl_only]`, `#[custom_impl]`, `#[wrap_with]`/`#[return_wrap]`, supertraits, "
         "external traits (`#[cglue_trait_ext]`, the builtin Clone/AsRef/AsMut/fmt::*/Future/Stream/Sink glue), forwarded traits (`#[cglue_forward]`, `Fwd`), contexts other than CArc, "
         "by-reference containers, arithmetic corner cases (usize::MAX, zero lengths, capacity overflow, alignment > 8, zero-sized types), and cooperating edits at two sites.")
-HINT = ("Under-used so far (prefer these): argument and return SHAPES rarely seen — bool / char / u128 / i128 / isize / f32 / f64 arguments, arrays by value, "
-        "CTup2..CTup4 tuples, nested Option<Result<..>>, `&mut str`, returned `Option<&mut T>`, `impl Into<T>` with a non-trivial conversion, several slices and strings in one call, "
-        "generic METHODS handled via attributes; containers rarely seen — `Fwd<&T>` / `Fwd<&mut T>`, `CSliceBox`, `CBox::from((T, NoContext))`, `IntoInner`, `CArcSome` as instance, objects "
-        "built from an already-opaque object, two objects sharing one context, a group inside a group's associated type; generator paths rarely taken — default method bodies calling by-value "
-        "methods, `where Self: Sized` methods, `unsafe` / `extern \"C\"` trait methods, traits with constants or supertraits, lifetimes on methods (`fn f<'a>(&'a self, ..) -> &'a T`), "
-        "`#[wrap_with_obj_mut]` / `#[wrap_with_group_mut]`, `#[return_wrap]`, `#[custom_impl]`, `#[vtbl_only]`; behaviour on the SECOND and later uses of the same object/value (state kept "
-        "between calls, temporary return storage reused, something cached); conversions chained (`into_opaque` twice, cast then cast again, upcast then cast); arithmetic corner cases "
-        "(usize::MAX, isize::MAX bytes, zero-sized or over-aligned (align 16/64) types, capacity 0 with a dangling pointer); error / early-return paths (failure in the middle of a "
-        "multi-step operation, panics are out of scope); cooperating edits at two sites that are each harmless alone. AVOID (already heavily used): overriding standard-library default "
-        "methods (clone_from, nth, size_hint, ...), sabi/StableAbi attribute edits, swapped clone/drop pairs, forgotten mem::forget.")
+HINT = ("Under-used so far (prefer these): code in cglue/src/trait_group.rs (the accessor traits CGlueObjBase / CGlueObjRef / CGlueObjMut / CGlueObjOwned / GetContainer / GetVtbl / IntoInner, "
+        "the `From` constructors of CGlueTraitObj and CGlueObjContainer, `Opaquable` impls, `cobj_pin_*`), cglue/src/forward.rs (`Fwd`, `Forward`, `ForwardMut`), cglue/src/from2.rs, "
+        "cglue/src/boxed.rs (`CSliceBox`, `IntoInner`), cglue-macro/src/lib.rs (`trait_obj!`, `group_obj!`, `cast!` ... argument parsing and path remapping), cglue-gen/src/generics.rs and "
+        "cglue-gen/src/util.rs (generic parameter / lifetime / path handling), cglue-gen/src/forward.rs, cglue-gen/src/ext/* (builtin Clone / AsRef / AsMut / fmt / Future / Stream / Sink glue); "
+        "behaviour that only differs in a NON-DEFAULT CONFIGURATION that still builds offline (`--features rust_void`, `unwind_abi`, `task`, `futures`, `layout_checks`, `unstable`) — say which "
+        "in meta.txt and make the demo use it; behaviour on the second and later uses of one value; pinned receivers (`Pin<&Self>`, `Pin<&mut Self>`); `unsafe fn` and `extern \"C\" fn` trait methods; "
+        "traits with a lifetime parameter and `'a`-bounded associated types; groups with generic parameters; objects built with `(value, context)` tuples for unusual context types; chained "
+        "conversions (opaque -> cast -> upcast -> cast again -> into). AVOID (already heavily used): overriding standard-library default methods, sabi/StableAbi attribute edits, swapped "
+        "clone/drop pairs, forgotten mem::forget, trailing-NUL / UTF-8 tweaks to strings, HashMap ordering, vtable slot dropping for attribute-marked methods.")
 for p in props:
     prev = sorted(glob.glob(f"/verif/build/prompts/{p}r*.txt"), key=lambda f: int(re.search(r"r(\d+)\.txt", f).group(1)))[-1]
     old_n = re.search(r"r(\d+)\.txt", prev).group(1)
